@@ -29,7 +29,7 @@ PROPOSED_KNOWN = [
              "indices (e.g. Chvatal's example c=[-10,57,9,24,0,0,0] A=[[1,-11,-5,18,1,0,0],[1,-3,-1,2,0,1,0],"
              "[1,0,0,0,0,0,1]] b=[0,0,1] tol=1e-10 initialBasic=[0,1,3]: period-12 cycle, optimum is -1)"},
     {"id": "C19-LP2", "status": "known",
-     "match": r"^lp:simplex:(nil|conv):error-on-optimal:ErrInfeasible:square:degenerate$",
+     "match": r"^lp:simplex:nil:error-on-optimal:ErrInfeasible:square:degenerate$",
      "what": "lp.Simplex, m == n path (simplex.go: 'if v < 0 { return ErrInfeasible }' after SolveVec) has no "
              "tolerance: a solution component that is exactly 0 comes out of the float solve as -1e-17 and the "
              "feasible program is reported infeasible (e.g. c=[-1,-1,-1] A=[[-1,1,-1],[3,-1,2],[-1,-1,2]] "
@@ -56,7 +56,7 @@ def _gsize(nv, ni, ne, d, h):
 
 def families(th, seed):
     """(name, spec, cfg, subst, nshards, seeded)"""
-    k = 6 if th else 1
+    k = 12 if th else 1
     F = []
 
     def std(name, mode, m, n, a, b, c, count=None, shards=4):
@@ -71,33 +71,34 @@ def families(th, seed):
 
     # ---- exhaustive small spaces (seed independent, cached) ----
     std("exh 1x2 [-2,2]", "exh", 1, 2, (2, 2), (2, 2), (2, 2), shards=1)
-    std("exh 1x3 [-1,2]", "exh", 1, 3, (1, 2), (1, 2), (1, 2), shards=2)
-    std("exh 2x2 A,b[-1,2] c[0,1]", "exh", 2, 2, (1, 2), (1, 2), (0, 1), shards=2)
-    std("exh 2x3 A[-1,1] b[0,1] c[-1,1]", "exh", 2, 3, (1, 1), (0, 1), (1, 1), shards=8)
+    std("exh 1x3 [-1,2]", "exh", 1, 3, (1, 2), (1, 2), (1, 2), shards=1)
+    std("exh 2x2 A,b[-1,2] c[0,1]", "exh", 2, 2, (1, 2), (1, 2), (0, 1), shards=1)
+    std("exh 2x3 A[-1,1] b[0,1] c[-1,0]", "exh", 2, 3, (1, 1), (0, 1), (1, 0), shards=4)
     if th:
         std("exh 2x3 A[-1,1] b[-1,1] c[-1,1]", "exh", 2, 3, (1, 1), (1, 1), (1, 1), shards=8)
         std("exh 2x4 A[0,1] b[0,1] c[-1,1]", "exh", 2, 4, (0, 1), (0, 1), (1, 1), shards=8)
         std("exh 3x3 A[-1,1] b[0,1] c[0,0]", "exh", 3, 3, (1, 1), (0, 1), (0, 0), shards=8)
-    # ---- seeded samples of larger spaces ----
-    std("rnd 2x4 [-1,2]", "rnd", 2, 4, (1, 2), (1, 2), (1, 2), 6000 * k)
-    std("rnd 2x4 degenerate A[-1,1] b[0,1] c[-2,2]", "rnd", 2, 4, (1, 1), (0, 1), (2, 2), 4000 * k)
-    std("rnd 2x5 [-2,2]", "rnd", 2, 5, (2, 2), (1, 2), (2, 2), 3000 * k)
-    std("rnd 3x3 square [-2,3]", "rnd", 3, 3, (2, 3), (2, 3), (1, 1), 3000 * k)
-    std("rnd 3x5 A[-1,2] b[0,2] c[-2,2]", "rnd", 3, 5, (1, 2), (0, 2), (2, 2), 3000 * k)
-    std("rnd 3x6 [-2,3]", "rnd", 3, 6, (2, 3), (2, 3), (2, 3), 4000 * k, shards=8)
-    std("rnd 3x6 degenerate A[-1,1] b[0,1] c[-2,1]", "rnd", 3, 6, (1, 1), (0, 1), (2, 1), 4000 * k, shards=8)
-    std("rnd 4x4 square [-1,2]", "rnd", 4, 4, (1, 2), (1, 2), (1, 1), 1000 * k)
-    std("rnd 4x6 A[-1,1] b[0,2] c[-1,1]", "rnd", 4, 6, (1, 1), (0, 2), (1, 1), 300 * k)
-    std("rnd 4x7 [-1,2]", "rnd", 4, 7, (1, 2), (1, 2), (1, 2), 240 * k, shards=8)
+    # ---- seeded samples of larger spaces (k = 1 quick, 12 thorough) ----
+    w = 8 if th else 2
+    std("rnd 2x4 [-1,2]", "rnd", 2, 4, (1, 2), (1, 2), (1, 2), 3000 * k, shards=w)
+    std("rnd 2x4 degenerate A[-1,1] b[0,1] c[-2,2]", "rnd", 2, 4, (1, 1), (0, 1), (2, 2), 2000 * k, shards=w)
+    std("rnd 2x5 [-2,2]", "rnd", 2, 5, (2, 2), (1, 2), (2, 2), 1500 * k, shards=w)
+    std("rnd 3x3 square [-2,3]", "rnd", 3, 3, (2, 3), (2, 3), (1, 1), 2000 * k, shards=w // 2)
+    std("rnd 3x5 A[-1,2] b[0,2] c[-2,2]", "rnd", 3, 5, (1, 2), (0, 2), (2, 2), 1500 * k, shards=w)
+    std("rnd 3x6 [-2,3]", "rnd", 3, 6, (2, 3), (2, 3), (2, 3), 2000 * k, shards=2 * w)
+    std("rnd 3x6 degenerate A[-1,1] b[0,1] c[-2,1]", "rnd", 3, 6, (1, 1), (0, 1), (2, 1), 2000 * k, shards=2 * w)
+    std("rnd 4x4 square [-1,2]", "rnd", 4, 4, (1, 2), (1, 2), (1, 1), 500 * k, shards=w // 2)
+    std("rnd 4x6 A[-1,1] b[0,2] c[-1,1]", "rnd", 4, 6, (1, 1), (0, 2), (1, 1), 160 * k, shards=w)
+    std("rnd 4x7 [-1,2]", "rnd", 4, 7, (1, 2), (1, 2), (1, 2), 120 * k, shards=2 * w)
     # ---- general form (Convert) ----
     gen("conv exh nv1 ni2 [-2,2]", "exh", 1, 2, 0, (2, 2), (2, 2), shards=1)
-    gen("conv rnd nv1 ni3", "rnd", 1, 3, 0, (2, 2), (2, 3), 1000 * k, shards=2)
-    gen("conv rnd nv2 ni2", "rnd", 2, 2, 0, (2, 2), (2, 3), 2000 * k)
-    gen("conv rnd nv2 ni3", "rnd", 2, 3, 0, (2, 2), (2, 3), 1200 * k, shards=8)
-    gen("conv rnd nv2 ni2 ne1", "rnd", 2, 2, 1, (2, 2), (2, 3), 1500 * k)
-    gen("conv rnd nv3 ni3", "rnd", 3, 3, 0, (1, 2), (1, 2), 300 * k, shards=8)
-    gen("conv rnd nv3 ni2 ne1", "rnd", 3, 2, 1, (1, 2), (1, 2), 300 * k, shards=8)
-    gen("conv rnd nv2 ni3 ne1", "rnd", 2, 3, 1, (1, 2), (1, 2), 100 * k, shards=8)
+    gen("conv rnd nv1 ni3", "rnd", 1, 3, 0, (2, 2), (2, 3), 500 * k, shards=w // 2)
+    gen("conv rnd nv2 ni2", "rnd", 2, 2, 0, (2, 2), (2, 3), 1000 * k, shards=w // 2)
+    gen("conv rnd nv2 ni3", "rnd", 2, 3, 0, (2, 2), (2, 3), 500 * k, shards=2 * w)
+    gen("conv rnd nv2 ni2 ne1", "rnd", 2, 2, 1, (2, 2), (2, 3), 600 * k, shards=w)
+    gen("conv rnd nv3 ni3", "rnd", 3, 3, 0, (1, 2), (1, 2), 120 * k, shards=w)
+    gen("conv rnd nv3 ni2 ne1", "rnd", 3, 2, 1, (1, 2), (1, 2), 120 * k, shards=w)
+    gen("conv rnd nv2 ni3 ne1", "rnd", 2, 3, 1, (1, 2), (1, 2), 40 * k, shards=w)
     if th:
         gen("conv rnd nv2 ni4", "rnd", 2, 4, 0, (1, 2), (1, 2), 400, shards=8)
     return F
@@ -119,7 +120,7 @@ def run_lp(ctx):
 
     def r1_b():
         ctx.tlc("lp/Lp.tla", "lp/Lp.cfg", workers=2, name="R1 Lp theorems + Invariance, rnd 2x4",
-                subst=dict(_std("rnd", 2, 4, (1, 2), (1, 2), (1, 2), 1500 if th else 300), **inv))
+                subst=dict(_std("rnd", 2, 4, (1, 2), (1, 2), (1, 2), 1500 if th else 150), **inv))
 
     def r1_c():
         ctx.tlc("lp/Lp.tla", "lp/Lp.cfg", workers=4, name="R1 Lp theorems + Invariance, rnd 3x5",
